@@ -167,7 +167,7 @@ def generate_jaqal_block(statement, depth, indent_first_line):
         output += "<\n"
     else:
         output += "{\n"
-    for gate in statement:
+    for gate in iter_block_statements(statement):
         if isinstance(gate, GateStatement):
             output += generate_jaqal_gate(gate, depth + 1)
         elif isinstance(gate, LoopStatement):
@@ -180,6 +180,22 @@ def generate_jaqal_block(statement, depth, indent_first_line):
     else:
         output += "}\n"
     return output
+
+
+def iter_block_statements(block):
+    """Iterate over the statements of a block, splicing in the statements of
+    a directly nested block of the same kind: Jaqal has no syntax for
+    { { ... } } or < < ... > >, and nesting blocks of one kind does not
+    change what is executed."""
+    for stmt in block:
+        if (
+            isinstance(stmt, BlockStatement)
+            and stmt.parallel == block.parallel
+            and not stmt.subcircuit
+        ):
+            yield from iter_block_statements(stmt)
+        else:
+            yield stmt
 
 
 def generate_jaqal_value(val):
